@@ -45,6 +45,11 @@ type (
 		_lastOffset atomic.Value
 		_recovered  atomic.Value
 
+		// See `setLastOffset`.
+		arrivals          atomic.Uint64
+		lastOffsetArrival uint64
+		lastOffsetMu      sync.Mutex
+
 		config    *ClientSocketConfig
 		namespace string
 		manager   *Manager
@@ -148,8 +153,22 @@ func (s *clientSocket) lastOffset() (lastOffset string, ok bool) {
 	return
 }
 
-func (s *clientSocket) setLastOffset(lastOffset string) {
+// arrival is the position of the packet that carried the offset in the order in which the packets of this socket
+// arrived (see `Manager.onParserFinish`). Every packet is handled on a goroutine of its own, so the offsets get here
+// in any order; the one to remember for the next recovery is that of the packet that arrived last.
+func (s *clientSocket) setLastOffset(lastOffset string, arrival uint64) {
+	s.lastOffsetMu.Lock()
+	defer s.lastOffsetMu.Unlock()
+	if arrival < s.lastOffsetArrival {
+		return
+	}
+	s.lastOffsetArrival = arrival
 	s._lastOffset.Store(lastOffset)
+}
+
+// Called in the order of arrival, before the packet is handed to its goroutine.
+func (s *clientSocket) nextArrival() uint64 {
+	return s.arrivals.Add(1)
 }
 
 func (s *clientSocket) Recovered() bool {
@@ -377,7 +396,7 @@ func (s *clientSocket) sendConnectPacket(authData any) {
 	}()
 }
 
-func (s *clientSocket) onPacket(header *parser.PacketHeader, eventName string, decode parser.Decode) {
+func (s *clientSocket) onPacket(header *parser.PacketHeader, eventName string, decode parser.Decode, arrival uint64) {
 	switch header.Type {
 	case parser.PacketTypeConnect:
 		s.onConnect(header, decode)
@@ -402,7 +421,7 @@ func (s *clientSocket) onPacket(header *parser.PacketHeader, eventName string, d
 		}
 
 		for _, handler := range s.eventHandlers.getAll(eventName) {
-			s.onEvent(handler, header, decode, sendAck)
+			s.onEvent(handler, header, decode, sendAck, arrival)
 		}
 	case parser.PacketTypeAck, parser.PacketTypeBinaryAck:
 		s.onAck(header, decode)
@@ -591,6 +610,7 @@ func (s *clientSocket) onEvent(
 	header *parser.PacketHeader,
 	decode parser.Decode,
 	sendAck ackSendFunc,
+	arrival uint64,
 ) (hasAckFunc bool) {
 	var (
 		values []reflect.Value
@@ -613,7 +633,7 @@ func (s *clientSocket) onEvent(
 				offset = offset.Elem()
 			}
 			if offset.Kind() == reflect.String && offset.String() != "" {
-				s.setLastOffset(offset.String())
+				s.setLastOffset(offset.String(), arrival)
 			}
 			values = values[:len(values)-1]
 		} else {
